@@ -412,8 +412,9 @@ INFO['C05'] = {
     'bounds': 'all ordered pairs of {row-major, Morton pdep, Morton portable, Hilbert}, N=1..3 (Hilbert N=2), every extent vector with '
               'extents 1..3 for N<=2 and 1..2 for N=3 (quick) / 1..5 for N=2 (thorough), plus fixed non-power-of-two shapes 5x5, 5x3, 6x7, 3x3x3, 3x2x3, 5, 2x1x3x2 (thorough: 9x9, 5x5x5, 6x3x5, 17x3, 3x3x3x3, 2x3x1x5), storage float1/double3 with all bit patterns, symbolic '
               'probe coordinate: same configuration, same value, source unchanged, own storage, round trip, independence of writes, no leak; '
-              'whole-stack affine<I1<L1<array>>> -> affine<I2<L2<array>>> for I in {nearest, linear}: matrix and layout-level contents',
-    'outside': 'extents above the bound; CUDA device arrays: cuda_runtime.h is not in the image and no shim was built (CUDA conversion not covered)',
+              'whole-stack affine<I1<L1<array>>> -> affine<I2<L2<array>>> for I in {nearest, linear}: matrix and layout-level contents; '
+              'host array -> cuda_device_array under a host shim of the CUDA runtime: one device allocation, same configuration and values, source unchanged, host and device storage released',
+    'outside': 'extents above the bound; real CUDA devices (the host->device conversion runs under a host shim of cudaMalloc/cudaMemcpy/cudaFree: reduced assurance); device-side copy members of cuda_device_array (ill-formed on the pinned tree, outside the quantifier)',
     'cuts': 'none (nd_map std::function closures, heap allocation and indirect calls are executed as they are)', 'assumptions': [],
 }
 
@@ -484,6 +485,10 @@ def units_C05(tier, seed):
             U += unit(f'c05_convfixed_{LAYNAME[a]}_{LAYNAME[b]}_{"x".join(str(x) for x in e[:n])}_{v}', H,
                       f'conv_fixed_h<{a},{b},{n},{VEC[v]},{e[0]},{e[1]},{e[2]},{e[3]}>()', extra=ex, sites=[1, 2, 3, 4, 5, 6, 7, 8, 9],
                       weight=e[0] * max(1, e[1]) * max(1, e[2]) * max(1, e[3]), timeout=3000, cfg={'sym_cells_cap': 4096})
+    # host array -> CUDA device array under the host shim of the CUDA runtime (reduced assurance)
+    for n, v, bnd in ((1, 'f2', 3), (2, 'f3', 3), (3, 'd1', 2)) + (((2, 'd4', 4), (4, 'f1', 2)) if th else ()):
+        U += unit(f'c05_cuda_h2d_{n}_{v}', 'c05_cuda.cpp', f'h2d_h<{n},{VEC[v]},{bnd}>()', sites=[1, 2, 3, 4, 5],
+                  flavours=('rel', 'dbg') if n == 2 else ('rel',), diff=(n == 2), weight=bnd ** n * 5)
     for i1, l1, i2, l2 in ((0, 0, 1, 2), (1, 0, 0, 1), (1, 2, 1, 0), (0, 1, 0, 0), (1, 0, 1, 3), (0, 3, 1, 0)):
         for n in ((2,) if not th else (1, 2, 3)):
             if 3 in (l1, l2) and n != 2:
